@@ -8,41 +8,186 @@ import TmcgProofs.Powm
 namespace Tmcg.Powm
 open Tmcg
 
+/-! ### helpers -/
+
+/-- uniqueness of reduced inverses modulo `p` -/
+theorem inv_unique {p r r' a : Int} (h0 : 0 ≤ r) (h1 : r < p) (h0' : 0 ≤ r') (h1' : r' < p)
+    (h : r * a % p = 1) (h' : r' * a % p = 1) : r = r' := by
+  have hp : 1 < p ∨ p = 1 := by omega
+  rcases hp with hp | hp
+  · have one : (1 : Int) % p = 1 := Int.emod_eq_of_lt (by norm_num) hp
+    have e : r * a ≡ 1 [ZMOD p] := by unfold Int.ModEq; rw [h, one]
+    have e' : r' * a ≡ 1 [ZMOD p] := by unfold Int.ModEq; rw [h', one]
+    have c1 : r * (r' * a) ≡ r * 1 [ZMOD p] := Int.ModEq.mul_left _ e'
+    have c2 : r' * (r * a) ≡ r' * 1 [ZMOD p] := Int.ModEq.mul_left _ e
+    have c3 : r * (r' * a) = r' * (r * a) := by ring
+    rw [c3, mul_one] at c1
+    rw [mul_one] at c2
+    have c4 : r ≡ r' [ZMOD p] := c1.symm.trans c2
+    have := c4.eq
+    rwa [Int.emod_eq_of_lt h0 h1, Int.emod_eq_of_lt h0' h1'] at this
+  · omega
+
+/-- a reduced inverse, in the form used by the statements of this file -/
+theorem inv_mul_emod {p a r : Int} (hp : 1 < p) (h : a * r ≡ 1 [ZMOD p]) : r * a % p = 1 := by
+  rw [mul_comm, h.eq]
+  exact Int.emod_eq_of_lt (by norm_num) hp
+
+theorem powm_cast (b p : Int) (hp : 0 < p) (hb : 0 ≤ b) (k : Nat) :
+    ((powm b.toNat k p.natAbs : Nat) : Int) = b ^ k % p := by
+  rw [powm_eq]
+  push_cast
+  rw [abs_of_pos hp, Int.toNat_of_nonneg hb]
+
+theorem mulLoop_zero (T : Table) (p : Int) (x : Nat) : ∀ (n i : Nat), mulLoop T p x n i 0 = 0 := by
+  intro n
+  induction n with
+  | zero => intro i; rfl
+  | succ n ih =>
+    intro i
+    unfold mulLoop
+    by_cases h : tstbit x i <;> simp [h, ih]
+
+/-- a set bit at a position where the table entry is 0 annihilates the result -/
+theorem mulLoop_hit (T : Table) (p : Int) (x i : Nat) (hbit : tstbit x i = true)
+    (hz : T.get i = 0) : ∀ (n i0 : Nat) (res : Int), i0 ≤ i → i < i0 + n →
+      mulLoop T p x n i0 res = 0 := by
+  intro n
+  induction n with
+  | zero => intro i0 res h1 h2; omega
+  | succ n ih =>
+    intro i0 res h1 h2
+    unfold mulLoop
+    by_cases he : i0 = i
+    · subst he
+      simp [hbit, hz, mulLoop_zero]
+    · exact ih (i0 + 1) _ (by omega) (by omega)
+
+theorem tstbit_lt_bitlen (x : Int) (i : Nat) (hbit : tstbit x.natAbs i = true) : i < bitlen x := by
+  have hlt := natAbs_lt_two_pow_bitlen x
+  unfold tstbit at hbit
+  rw [Nat.shiftRight_eq_div_pow] at hbit
+  have h1 : x.natAbs / 2 ^ i % 2 = 1 := by simpa using hbit
+  have h2 : 0 < x.natAbs / 2 ^ i := by
+    generalize x.natAbs / 2 ^ i = y at h1
+    omega
+  have h3 : 2 ^ i ≤ x.natAbs := by
+    by_contra hc
+    rw [Nat.div_eq_of_lt (Nat.lt_of_not_le hc)] at h2
+    exact absurd h2 (lt_irrefl 0)
+  exact (Nat.pow_lt_pow_iff_right (by norm_num : 1 < 2)).mp (lt_of_le_of_lt h3 hlt)
+
 /-- `mpz_powm` with a non-negative exponent is the mathematical power residue -/
 theorem mpzPowm_nonneg_eq (b e p : Int) (hp : 0 < p) (he : 0 ≤ e) :
     mpzPowm b e p = .ok (b ^ e.toNat % p) := by
-  sorry
+  have hp0 : p ≠ 0 := by omega
+  unfold mpzPowm
+  simp only [hp0, if_false, he, if_true]
+  rw [baz_eq b p hp]
 
 /-- `mpz_powm` with a negative exponent on a unit: the reduced inverse of the positive power -/
 theorem mpzPowm_neg_spec (b e p : Int) (hp : 1 < p) (he : e < 0) (hb : Int.gcd b p = 1) :
     ∃ r, mpzPowm b e p = .ok r ∧ 0 ≤ r ∧ r < p ∧ r * b ^ e.natAbs % p = 1 := by
-  sorry
+  have hp0 : p ≠ 0 := by omega
+  have hpp : 0 < p := by omega
+  obtain ⟨bi, hbi⟩ := invm_isSome_of_coprime hp0 hb
+  obtain ⟨h0, h1, hc⟩ := invm_some hbi
+  rw [abs_of_pos hpp] at h1
+  have hne : ¬ 0 ≤ e := by omega
+  have hk : (-e).toNat = e.natAbs := by omega
+  refine ⟨bi ^ e.natAbs % p, ?_, Int.emod_nonneg _ hp0, Int.emod_lt_of_pos _ hpp, ?_⟩
+  · unfold mpzPowm
+    simp only [hp0, if_false, hne, hbi, hk]
+    rw [powm_cast bi p hpp h0]
+  · have e1 : bi ^ e.natAbs % p * b ^ e.natAbs ≡ bi ^ e.natAbs * b ^ e.natAbs [ZMOD p] :=
+      Int.ModEq.mul_right _ (Int.mod_modEq _ _)
+    have e2 : bi ^ e.natAbs * b ^ e.natAbs = (b * bi) ^ e.natAbs := by rw [← mul_pow, mul_comm]
+    have e3 : (b * bi) ^ e.natAbs ≡ 1 ^ e.natAbs [ZMOD p] := hc.pow _
+    rw [one_pow] at e3
+    rw [e2] at e1
+    rw [(e1.trans e3).eq]
+    exact Int.emod_eq_of_lt (by norm_num) hp
 
 /-- **C09** constant-time variant = plain exponentiation, every exponent (negative, zero,
     positive; also exponents sharing a factor with the modulus, after the repair of F6) -/
 theorem spowm_eq_mpzPowm (m x p : Int) (hp : 1 < p) (hodd : p % 2 = 1) (hm : Int.gcd m p = 1) :
     spowm m x p = mpzPowm m x p := by
-  sorry
+  obtain ⟨r, hr, h0, h1, hspec⟩ := spowm_spec m x p hp hodd hm
+  rw [hr]
+  by_cases hx : 0 ≤ x
+  · simp only [hx, if_true] at hspec
+    rw [mpzPowm_nonneg_eq m x p (by omega) hx, hspec]
+    congr 3
+    omega
+  · simp only [hx, if_false] at hspec
+    obtain ⟨r', hr', h0', h1', hs'⟩ := mpzPowm_neg_spec m x p hp (by omega) hm
+    rw [hr', inv_unique h0 h1 h0' h1' hspec hs']
 
 /-- **C09** table-based variant = plain exponentiation, for exponents within the table -/
 theorem fpowm_eq_mpzPowm (g p : Int) (t : Nat) (hp : 1 < p) (T : Table)
     (hT : precompute g p t = .ok T) (x : Int) (hlen : bitlen x ≤ tableSize t)
     (hg : Int.gcd g p = 1) :
     fpowm T g x p = mpzPowm g x p := by
-  sorry
+  have hp0 : p ≠ 0 := by omega
+  have hpp : 0 < p := by omega
+  rw [fpowm_spec g p t hp T hT x hlen]
+  by_cases hx : 0 ≤ x
+  · simp only [hx, if_true]
+    rw [mpzPowm_nonneg_eq g x p hpp hx]
+    congr 3
+    omega
+  · simp only [hx, if_false]
+    have hk : 0 < x.natAbs := by omega
+    have hcop : Int.gcd (g ^ x.natAbs % p) p = 1 := by
+      rw [gcd_emod_left]; exact (gcd_pow_left_iff g p _ hk).mpr hg
+    obtain ⟨r, hr⟩ := invm_isSome_of_coprime hp0 hcop
+    obtain ⟨h0, h1, hc⟩ := invm_some hr
+    rw [abs_of_pos hpp] at h1
+    have hs : r * g ^ x.natAbs % p = 1 := by
+      have e1 : r * g ^ x.natAbs ≡ r * (g ^ x.natAbs % p) [ZMOD p] :=
+        Int.ModEq.mul_left _ (Int.mod_modEq _ _).symm
+      rw [e1.eq]
+      exact inv_mul_emod hp hc
+    obtain ⟨r', hr', h0', h1', hs'⟩ := mpzPowm_neg_spec g x p hp (by omega) hg
+    rw [hr, hr', inv_unique h0 h1 h0' h1' hs hs']
 
 /-- **C09** table-based always-multiply variant = plain exponentiation -/
 theorem fspowm_eq_mpzPowm (g p : Int) (t : Nat) (hp : 1 < p) (T : Table)
     (hT : precompute g p t = .ok T) (x : Int) (hlen : bitlen x ≤ tableSize t)
     (hg : Int.gcd g p = 1) :
     fspowm T g x p = mpzPowm g x p := by
-  sorry
+  have hp0 : p ≠ 0 := by omega
+  have hpp : 0 < p := by omega
+  rw [fspowm_spec g p t hp T hT x hlen]
+  have hcop : Int.gcd (g ^ x.natAbs % p) p = 1 := by
+    rw [gcd_emod_left]
+    rcases Nat.eq_zero_or_pos x.natAbs with h | h
+    · rw [h, pow_zero]; exact Int.one_gcd
+    · exact (gcd_pow_left_iff g p _ h).mpr hg
+  obtain ⟨r, hr⟩ := invm_isSome_of_coprime hp0 hcop
+  obtain ⟨h0, h1, hc⟩ := invm_some hr
+  rw [abs_of_pos hpp] at h1
+  rw [hr]
+  by_cases hx : 0 ≤ x
+  · simp only [hx, if_true]
+    rw [mpzPowm_nonneg_eq g x p hpp hx]
+    congr 3
+    omega
+  · simp only [hx, if_false]
+    have hs : r * g ^ x.natAbs % p = 1 := by
+      have e1 : r * g ^ x.natAbs ≡ r * (g ^ x.natAbs % p) [ZMOD p] :=
+        Int.ModEq.mul_left _ (Int.mod_modEq _ _).symm
+      rw [e1.eq]
+      exact inv_mul_emod hp hc
+    obtain ⟨r', hr', h0', h1', hs'⟩ := mpzPowm_neg_spec g x p hp (by omega) hg
+    rw [hr', inv_unique h0 h1 h0' h1' hs hs']
 
 /-- **C09** unsigned-long exponent variant (no coprimality needed) -/
 theorem fpowmUi_eq_mpzPowm (g p : Int) (t : Nat) (hp : 1 < p) (T : Table)
     (hT : precompute g p t = .ok T) (x : Nat) (hlen : bitlen x ≤ tableSize t) :
     fpowmUi T g x p = mpzPowm g x p := by
-  sorry
+  rw [fpowmUi_spec g p t hp T hT x hlen,
+    mpzPowm_nonneg_eq g x p (by omega) (Int.natCast_nonneg x), Int.toNat_natCast]
 
 /-- beyond the precomputed part of the table the entries are zero: an exponent (within the
     global limit) with a bit set at a position `≥ tableSize t` yields 0, not a wrong power —
@@ -52,12 +197,35 @@ theorem fpowm_beyond_table (g p : Int) (t : Nat) (hp : 1 < p) (T : Table)
     (hlen : bitlen x ≤ Gen.TMCG_MAX_FPOWM_T)
     (i : Nat) (hi : tableSize t ≤ i) (hbit : tstbit x.natAbs i = true) :
     fpowm T g x p = .ok 0 := by
-  sorry
+  have hp0 : p ≠ 0 := by omega
+  obtain ⟨hg, -, hzero⟩ := precompute_get g p t hp0 T hT
+  have hib : i < bitlen x := tstbit_lt_bitlen x i hbit
+  have hloop := mulLoop_hit T p x.natAbs i hbit (hzero i hi) (bitlen x) 0 1 (Nat.zero_le _)
+    (by omega)
+  unfold fpowm
+  simp only [hg, ne_eq, not_true_eq_false, if_false, hlen, if_true, hp0, false_and, hloop,
+    not_lt.mpr hx]
 
 /-- Chaum's base blinding (the fallback when `mpz_powm_sec` is unavailable): with any invertible
     blinding value the result is the plain power -/
 theorem spowmBaseblind_eq (m x p r : Int) (hp : 1 < p) (hx : 0 ≤ x) (hr : Int.gcd r p = 1) :
     spowmBaseblind m x p r = mpzPowm m x p := by
-  sorry
+  have hp0 : p ≠ 0 := by omega
+  have hpp : 0 < p := by omega
+  obtain ⟨r1, hr1⟩ := invm_isSome_of_coprime hp0 hr
+  obtain ⟨-, -, hc⟩ := invm_some hr1
+  unfold spowmBaseblind
+  simp only [hr1, mpzPowm_nonneg_eq _ x p hpp hx, mpzMod, hp0, if_false, bind, Except.bind]
+  congr 1
+  have e1 : (m * r % p) ^ x.toNat % p * (r1 ^ x.toNat % p) ≡
+      (m * r) ^ x.toNat * r1 ^ x.toNat [ZMOD p] :=
+    Int.ModEq.mul ((Int.mod_modEq _ _).trans ((Int.mod_modEq _ _).pow _)) (Int.mod_modEq _ _)
+  have e2 : (m * r) ^ x.toNat * r1 ^ x.toNat = m ^ x.toNat * (r * r1) ^ x.toNat := by
+    rw [mul_pow, mul_pow]; ring
+  have e3 : m ^ x.toNat * (r * r1) ^ x.toNat ≡ m ^ x.toNat * 1 ^ x.toNat [ZMOD p] :=
+    Int.ModEq.mul_left _ (hc.pow _)
+  rw [one_pow, mul_one] at e3
+  rw [e2] at e1
+  exact (e1.trans e3).eq
 
 end Tmcg.Powm
